@@ -20,7 +20,7 @@ use std::time::Duration;
 pub static INFO: PropInfo = PropInfo {
     id: "C09",
     level: "exploration",
-    rule: "three kinds of evaluation. (A) simulated sessions with small channel budgets (8-64 KB) and long lossy histories, submissions kept 'within budget' (accepted by can_send_message AND bytes submitted-but-not-yet-obtained <= receive budget); the monitor reads, after every arrival / drain / tick, the accounted memory of every channel (send side: public API; receive side: hook) and asserts 0 <= m <= max, that unreliable send memory is back after every flush, that after a full drain an unreliable receive channel accounts at most the fragments that saw a slice less than 3 s before the receiver's last update, that no endpoint disconnects with ReliableChannelMaxMemoryReached, and at a quiescent point (everything obtained and acknowledged, >= 3 s idle, drained) that every channel offers its whole budget and accounts 0 received bytes. (B) heap trend: a lean client/server pair runs 24-48 identical lossy+duplicating cycles; the live heap (counting global allocator) is recorded at the drained quiescent point after each cycle and must not keep growing (growth in both the 2nd and the 3rd third above a constant slack). (C) exact fill: a client/server pair with one budget (1 byte .. 64 KB, multiples and non-multiples of the 1200-byte slice) for both reliable kinds and both roles; without consulting can_send_message the driver submits messages (0 bytes .. several slices; whole slices in half of the runs, any length in the other half) whose lengths add up to exactly the budget, judged by a shadow (sum of the lengths of the messages whose ids are still unacknowledged, hook); at every step can_send_message must accept what the shadow says fits, channel_available_memory must equal budget - shadow, no endpoint may disconnect with ReliableChannelMaxMemoryReached, and after the acknowledgements the whole budget must be back; repeated 3 times per run over clean or lossy links. Non-trivial = faults occurred AND at least one duplicate of an already consumed message arrived AND the quiescent point was reached; distinct = distinct event-log fingerprints.",
+    rule: "four kinds of evaluation. (A) simulated sessions with small channel budgets (8-64 KB) and long lossy histories, submissions kept 'within budget' (accepted by can_send_message AND bytes submitted-but-not-yet-obtained <= receive budget); the monitor reads, after every arrival / drain / tick, the accounted memory of every channel (send side: public API; receive side: hook) and asserts 0 <= m <= max, that unreliable send memory is back after every flush, that after a full drain an unreliable receive channel accounts at most the fragments that saw a slice less than 3 s before the receiver's last update, that no endpoint disconnects with ReliableChannelMaxMemoryReached, and at a quiescent point (everything obtained and acknowledged, >= 3 s idle, drained) that every channel offers its whole budget and accounts 0 received bytes. (B) heap trend: a lean client/server pair runs 24-48 identical lossy+duplicating cycles; the live heap (counting global allocator) is recorded at the drained quiescent point after each cycle and must not keep growing (growth in both the 2nd and the 3rd third above a constant slack). (C) exact fill: a client/server pair with one budget (1 byte .. 64 KB, multiples and non-multiples of the 1200-byte slice) for both reliable kinds and both roles; without consulting can_send_message the driver submits messages (0 bytes .. several slices; whole slices in half of the runs, any length in the other half) whose lengths add up to exactly the budget, judged by a shadow (sum of the lengths of the messages whose ids are still unacknowledged, hook); at every step can_send_message must accept what the shadow says fits, channel_available_memory must equal budget - shadow, no endpoint may disconnect with ReliableChannelMaxMemoryReached, and after the acknowledgements the whole budget must be back; repeated 3 times per run over clean or lossy links. (D) stale fragment: one slice of a 2-6 slice unreliable message arrives, copies of that packet arrive 1-3 more times within the next 2.9 s, and at the first update after 3 s + one tick the receive side must account 0 bytes for it (copies are not progress). Non-trivial = faults occurred AND at least one duplicate of an already consumed message arrived AND the quiescent point was reached; distinct = distinct event-log fingerprints.",
     assumptions: &[
         "'within budget' window as defined in DESIGN C09, counted in plain bytes since fix F26 (DESIGN 8.3)",
         "heap trend compares successive quiescent points of a steady workload with a 32 KB slack (containers keep capacity)",
@@ -33,6 +33,7 @@ pub static INFO: PropInfo = PropInfo {
         ("unreliable_fragment_expired_checked", 5),
         ("trend_runs_completed", 2),
         ("fill_exact", 50),
+        ("stale_fragment_runs", 20),
     ],
     engines_quick: &["e1", "e2"],
     engines_thorough: &["e1", "e2"],
@@ -49,9 +50,11 @@ pub fn one_run(ctx: &Ctx, out: &mut Outcome, run_seed: u64) {
         Some("trend") => 1,
         Some("session") => 0,
         Some("fill") => 2,
+        Some("stale-fragment") => 3,
         _ => match r.below(40) {
             0 => 1,
             1..=8 => 2,
+            9 | 10 => 3,
             _ => 0,
         },
     };
@@ -59,6 +62,8 @@ pub fn one_run(ctx: &Ctx, out: &mut Outcome, run_seed: u64) {
         trend(ctx, out, run_seed, &mut r);
     } else if mode == 2 {
         fill(ctx, out, run_seed, &mut r);
+    } else if mode == 3 {
+        stale_fragment(ctx, out, run_seed, &mut r);
     } else {
         session(ctx, out, run_seed, &mut r);
     }
@@ -811,5 +816,100 @@ fn fill(ctx: &Ctx, out: &mut Outcome, run_seed: u64, r: &mut Rng) {
     out.eval(fp.finish(), exact_fills > 0);
     if exact_fills > 0 && r.chance(1, 50) {
         out.sample(json!({"mode": "fill", "run_seed": format!("{:#x}", run_seed), "budget": budget, "dir": dir, "ch": ch, "exact_fills": exact_fills, "messages": lens.len()}));
+    }
+}
+
+// ------------------------------------------------------------------------------------------
+// (D) a fragment that makes no progress stops counting after 3 s - duplicates are not progress
+// ------------------------------------------------------------------------------------------
+
+/// One slice of a sliced unreliable message arrives (budget ample, nothing is refused), then the network keeps
+/// delivering copies of that very packet, the last one less than 3 s after the first. Copies bring no progress:
+/// 3 s (+ one update) after the only slice that did, the fragment must no longer be accounted.
+fn stale_fragment(ctx: &Ctx, out: &mut Outcome, run_seed: u64, r: &mut Rng) {
+    let budget = *r.pick(&[20_000usize, 100_000, 1 << 20]);
+    let chans = vec![
+        ChanSpec { id: 0, kind: Kind::Unreliable, resend_ms: 0, max_mem: budget },
+        ChanSpec { id: 1, kind: Kind::ReliableOrdered, resend_ms: 100, max_mem: budget },
+    ];
+    let cc = ConnectionConfig {
+        available_bytes_per_tick: 60_000,
+        server_channels_config: chans.iter().map(|c| c.to_config()).collect(),
+        client_channels_config: chans.iter().map(|c| c.to_config()).collect(),
+    };
+    let mut server = RenetServer::new(cc.clone());
+    let id = 79;
+    server.add_connection(id);
+    let mut client = RenetClient::new(cc);
+    client.set_connected();
+    let up = r.chance(1, 2); // direction of the sliced message: client -> server or server -> client
+    let n_slices = r.urange(2, 6);
+    let len = (n_slices - 1) * 1200 + r.urange(1, 1200);
+    let which = r.usize_below(n_slices);
+    let msg = Bytes::from(payload::make(0, if up { UP } else { DOWN }, 0, 0, 0, len, 7));
+    let pkts = if up {
+        client.send_message(0, msg);
+        client.get_packets_to_send()
+    } else {
+        server.send_message(id, 0, msg);
+        server.get_packets_to_send(id).unwrap_or_default()
+    };
+    let slice_pkt = pkts.iter().find(|p| matches!(crate::rsim::decode(p), Some(Packet::UnreliableSlice { slice, .. }) if slice.slice_index == which)).cloned();
+    let Some(slice_pkt) = slice_pkt else {
+        out.count("stale_fragment_runs_void");
+        out.eval(crate::rng::mix(&[0x57A, run_seed]), false);
+        return;
+    };
+    let dt_ms = *r.pick(&[16u64, 100, 250]);
+    let dt = Duration::from_millis(dt_ms);
+    // copies at these offsets after the first arrival, all before the 3 s horizon
+    let mut copies: Vec<u64> = (0..r.range(1, 4)).map(|_| r.range(200, 2900) / dt_ms * dt_ms).collect();
+    copies.sort_unstable();
+    copies.dedup();
+    let mut hist = vec![format!("{} slices ({} bytes), only slice {} arrives at t=0; copies of that packet at {:?} ms; tick {} ms; direction {}", n_slices, len, which, copies, dt_ms, if up { "up" } else { "down" })];
+    let deliver = |server: &mut RenetServer, client: &mut RenetClient| {
+        if up {
+            let _ = server.process_packet_from(&slice_pkt, id);
+        } else {
+            client.process_packet(&slice_pkt);
+        }
+    };
+    deliver(&mut server, &mut client);
+    let accounted = |server: &RenetServer, client: &RenetClient| -> Option<usize> {
+        if up {
+            server.verif_connection(id).and_then(|c| c.verif_receive_memory(0))
+        } else {
+            client.verif_receive_memory(0)
+        }
+    };
+    let first = accounted(&server, &client).unwrap_or(0);
+    if first == 0 {
+        out.count("stale_fragment_runs_void");
+        out.eval(crate::rng::mix(&[0x57B, run_seed]), false);
+        return;
+    }
+    let mut t = 0u64;
+    let check_at = 3000 + dt_ms; // the first update at which 3 s have passed since the only progress, plus one
+    while t < check_at {
+        t += dt_ms;
+        server.update(dt);
+        client.update(dt);
+        if copies.contains(&t) {
+            deliver(&mut server, &mut client);
+            out.count("stale_fragment_copies_delivered");
+        }
+    }
+    let now = accounted(&server, &client);
+    hist.push(format!("t={} ms: accounted receive memory {:?} (was {} after the first slice)", t, now, first));
+    out.count("stale_fragment_runs");
+    out.eval(crate::rng::mix(&[0x57C, run_seed, n_slices as u64, copies.len() as u64]), true);
+    if now != Some(0) {
+        out.violation(
+            ctx,
+            "C09/unreliable-stale-fragments-still-counted/copies-counted-as-progress",
+            "incomplete unreliable fragments stop counting after 3 s without progress",
+            format!("a {}-slice unreliable message got only slice {} at t=0 and copies of it at {:?} ms; at t={} ms the receive channel still accounts {:?} bytes for it", n_slices, which, copies, t, now),
+            json!({"property": "C09", "engine": ctx.engine, "run_seed": format!("{:#x}", run_seed), "mode": "stale-fragment", "history": hist}),
+        );
     }
 }
